@@ -361,7 +361,10 @@ pub fn c14(ctx: &Ctx) {
                     Ok(r) => {
                         if let Some(prev) = first_pass_results.get(&(tidx, u8s)) {
                             for i in 0..10 {
-                                if prev[i].is_some() != r.r[i].is_ok() {
+                                // what succeeds on an ordinary image must succeed here too ("always succeed"); the other
+                                // direction (a request refused for the ordinary image but accepted for an image without
+                                // pixels) is left to the symmetry clause below, which is what the property states
+                                if prev[i].is_some() && !r.r[i].is_ok() {
                                     ev::violation(
                                         format!("C14|content-dependent-support|{}", CONV_NAMES[i]),
                                         format!("{} for ({m:?}, {p:?}, {t:?}): ok={} on the ordinary image but ok={} on an image of shape {sname}", CONV_NAMES[i], prev[i].is_some(), r.r[i].is_ok()),
